@@ -79,8 +79,9 @@ func poolOracle(sc PoolScenario, r *PoolResult) (fs []Finding) {
 		}
 	}
 	// what ended up in the backend must be what the same commands store over a direct connection
-	// (without cuts: with cuts the pool may execute a command twice)
-	if r.Cuts == 0 && len(fs) == 0 && r.FinalStore != r.ExpectedStore {
+	// (only in scenarios without cuts, late callers and clock advances: with cuts the pool may
+	// execute a command twice, and remaining lifetimes shrink as virtual time passes)
+	if sc.MaxCuts == 0 && !sc.Late && r.ElapsedSec == 0 && len(fs) == 0 && r.FinalStore != r.ExpectedStore {
 		all := true
 		for i := range sc.Callers {
 			all = all && r.Done[i]
